@@ -143,6 +143,12 @@ func (px *PX) readOctets(c *ssa.Call, fr *pxFrame, st *pxState) int {
 	switch qualifiedFnName(sc) {
 	case "io.ReadFull", "io.ReadAtLeast":
 		if bs := px.byteSeqOf(c.Call.Args[1], fr, st); bs != nil {
+			if len(c.Call.Args) == 3 {
+				// io.ReadAtLeast fills the buffer only when min is its length
+				if m, _ := px.eval(c.Call.Args[2], fr, st); m == nil || !m.Equal(single(int64(len(bs.Oct)))) {
+					return -3
+				}
+			}
 			return len(bs.Oct)
 		}
 		// length of a slice of unknown content: evaluate len
